@@ -11,9 +11,10 @@ ID = "C11"
 MODULE = "PotasscoVerif.Props.C11"
 THEOREMS = ["PotasscoVerif.C11.C11_refines", "PotasscoVerif.C11.C11_growth_independent",
             "PotasscoVerif.C11.run_ref", "PotasscoVerif.RuleBuilder.view_ref", "PotasscoVerif.C11.C11_init_is_initN",
-            "PotasscoVerif.RuleBuilder.clearHead_ref", "PotasscoVerif.RuleBuilder.clearBody_ref", "PotasscoVerif.RuleBuilder.weaken_ref", "PotasscoVerif.RuleBuilder.copy_ref"]
-PARTIAL = {"swap / two builders": "swap(a, b) exchanges two builder objects (two model states); histories over three real builders with copy/assign/swap between them are compared "
-           "with model and specification by the correspondence run; the theorem is stated for one builder with `copy` (copy construction / assignment as seen by that builder)"}
+            "PotasscoVerif.RuleBuilder.clearHead_ref", "PotasscoVerif.RuleBuilder.clearBody_ref", "PotasscoVerif.RuleBuilder.weaken_ref", "PotasscoVerif.RuleBuilder.copy_ref",
+            "PotasscoVerif.C11.C11_multi", "PotasscoVerif.C11.mstep_ref"]
+EXTRA_MODULES = ["PotasscoVerif.Props.C11m"]
+PARTIAL = {}
 BSIZES = (4096,)
 RULE = ("seeded histories over three builders: rules described head-first or body-first, disjunctive/choice/minimize, normal/sum bodies, "
         "0..200 elements (forcing several reallocations), weight-0 goals, setBound, clearHead/clearBody/clear, weaken to count/normal, end and "
@@ -25,7 +26,8 @@ TECHNIQUE = "Lean 4 refinement proof (memory-block model of RuleBuilder refines 
 LEVEL_TEXT = ("C11_refines: for every protocol-conforming sequence of start/startMinimize/startBody/startSum/addHead/addGoal/setBound/clearHead/clearBody/clear/"
               "weaken(to any type, with/without weight reset)/end/copy, of any length and any initial capacity, the memory-block model (header fields, word array with growth, in-place "
               "compaction of weaken) raises no assertion, never accesses a word outside its block and reports exactly the rule of the head/body-list specification "
-              "(growth independence is a corollary). The same histories — also over three builders with copy/assign/swap — are run through real RuleBuilder objects, the compiled "
+              "(growth independence is a corollary). C11_multi (Props/C11m.lean): the same for ANY number of builders with assignment / copy construction (b[j] := copy of b[i]) and swap between them: every builder reports "
+              "the rule of its own specification state, where an assignment copies a value and a swap exchanges two values — a copy carries the complete rule and builders are independent afterwards. The same histories — also over three builders with copy/assign/swap — are run through real RuleBuilder objects, the compiled "
               "model and the specification, and the specification is the oracle.")
 LEVEL_NOTE = ("Proved about Model/RuleBuilder.lean; model==code only on sampled histories. Bit-field widths (block < 2^30 bytes) and int overflow of weaken(Count) "
               "outside the model (unbounded Int). Trusted: Lean kernel + standard axioms, harness, generator.")
